@@ -1,4 +1,5 @@
 //! Deterministic simulation harness for OxiDD (see /verif/DESIGN.md)
+pub mod big;
 pub mod checks;
 pub mod exec;
 pub mod generate;
